@@ -192,7 +192,7 @@ def cfg_case(draw):
             cfg[p['name'] + '_max'] = lent
     # injected errors
     for _ in range(draw(st.sampled_from([0, 0, 0, 1, 1, 2, 3]))):
-        kind = draw(st.sampled_from(['unknown-name', 'unknown-prop', 'bad-prop', 'no-description', 'inverted', 'writable-without-method']))
+        kind = draw(st.sampled_from(['unknown-name', 'unknown-prop', 'bad-prop', 'no-description', 'inverted', 'writable-without-method', 'export-collision']))
         p = draw(st.sampled_from(cs['params']))
         ent = cfg.get(p['name'])
         if kind == 'unknown-name':
@@ -225,6 +225,15 @@ def cfg_case(draw):
             if 'description' in cfg:
                 del cfg['description']
                 errors.append({'kind': kind, 'needle': 'description'})
+        elif kind == 'export-collision' and len(cs['params']) >= 2:
+            # the exported name of a parameter is configured to be the one of an other parameter: one of them would vanish
+            other = draw(st.sampled_from([q for q in cs['params'] if q is not p]))
+            ent = ent or {'$order': []}
+            if 'export' not in ent:
+                ent['$order'] = ent['$order'] + ['export']
+            ent['export'] = '_' + other['name']
+            cfg[p['name']] = ent
+            errors.append({'kind': kind, 'needle': p['name']})
         elif kind == 'inverted' and (p['T']['k'] in ('double', 'int') or p['T']['k'] == 'array' and p['T']['of']['k'] in ('double', 'int')):
             # (datatype properties given for an array parameter are passed on to the member type)
             ent = ent or {'$order': []}
@@ -330,6 +339,18 @@ def derive_errors(cs, cfg):
             errors.append({'kind': 'inverted', 'needle': p['name']})
         if p.get('needscfg') and 'value' not in ent:
             errors.append({'kind': 'needscfg', 'needle': p['name']})
+    # exported names in effect (configured ones included) must be distinct
+    eff = {}
+    for p in cs['params']:
+        ent = cfg.get(p['name'])
+        exp = ent.get('export', True) if isinstance(ent, dict) else True
+        if exp is True:
+            eff[p['name']] = '_' + p['name']
+        elif isinstance(exp, str) and exp:
+            eff[p['name']] = exp
+    for pn, wire_ in eff.items():
+        if any(w2 == wire_ for p2, w2 in eff.items() if p2 != pn) and wire_ != '_' + pn:
+            errors.append({'kind': 'export-collision', 'needle': pn})
     return errors
 
 
@@ -370,6 +391,12 @@ def check_cfg(ctx, case):
         return
     ctx.ev()
     plan, errors = analyse(case)
+    if not any(e['kind'] == 'export-collision' for e in errors) and \
+            any(isinstance(v, dict) and v.get('export', True) is not True for k, v in cfg.items()):
+        # exported names are configured only to make them collide here (the generator does nothing else; renaming without
+        # collision is the business of C06): a shrunk case renaming or hiding parameters is not examined
+        ctx.label('renamed-export:not-examined')
+        return
     must_fail = bool(errors) or any('wrongtype' in (i.get('vclass'), i.get('vclass2')) for i in plan.values())
     may_fail = any('range' in (i.get('vclass'), i.get('vclass2')) for i in plan.values())
     nvalprops = sum(1 for i in plan.values() if 'value' in i and i['props'])
@@ -645,6 +672,8 @@ def check_files(ctx, case):
     for i, m in enumerate(case['mods']):
         name = f'm{i}'
         plan, errors = analyse(m)
+        # (a configuration file can not leave out the description: Mod() demands it, the writer above supplies one)
+        errors = [e for e in errors if e['kind'] != 'no-description']
         must_fail = bool(errors) or any(info.get('vclass') == 'wrongtype' for info in plan.values())
         may_fail = any(info.get('vclass') == 'range' for info in plan.values())
         reported = f'module {name}:' in text or f'creating {name}' in text
